@@ -533,8 +533,8 @@ End Stmt.
    CTxt  an aliased statement text, the same text with the definitions written out, a store, a
           batch size and the implementation's rows for both texts in both iteration modes; the
           text twin of Model/PipelineS.v on both texts and Model/AliasText.expand_stmt through the
-          twin.  Codes: Corr/C05Text.v (1 twin differs, 2 aliased rows differ from expanded rows in
-          the implementation, 3 expand_stmt through the twin differs from the aliased text through
+          twin.  Codes: Corr/C05Text.v (1 twin differs, 6 aliased rows differ from expanded rows in
+          the implementation, 7 expand_stmt through the twin differs from the aliased text through
           the twin, 99 outside the model). *)
 From KV Require Corr.C05Text.
 
